@@ -72,3 +72,55 @@ func usesLenMinusOne(par *ssa.Parameter) bool {
 	}
 	return false
 }
+
+// ---- E14.M11 the correction writes no constant boundary (C15/r19) -------------------------------------------------
+// Every boundary ApplyLinearCorrection writes is the affine image of the boundary it read.  A helper shared with Add
+// that clamps the start at zero stores a constant into StartAt on one path: a cue straddling the origin after the
+// correction is then no longer on the line.  Rule: in the library functions reachable from ApplyLinearCorrection no
+// store into Item.StartAt / Item.EndAt has a constant as its value.
+func ruleLinearNoConstantBoundary(p *Prog, l *Ledger, tier string) {
+	const rule = "E14.M11-linear-no-constant-boundary"
+	const name = "Subtitles.ApplyLinearCorrection"
+	fn := anchor(p, l, rule, name)
+	if fn == nil {
+		return
+	}
+	key := l.Key(rule, name, "boundaries", "")
+	n := 0
+	for _, f := range p.Closure([]*ssa.Function{fn}) {
+		for _, b := range f.Blocks {
+			for _, ins := range b.Instrs {
+				st, ok := ins.(*ssa.Store)
+				if !ok {
+					continue
+				}
+				// a boundary is reached through Item.StartAt / Item.EndAt or through a *time.Duration taken from them;
+				// local variables (Alloc) are not boundaries
+				if _, isLocal := st.Addr.(*ssa.Alloc); isLocal {
+					continue
+				}
+				fld := "boundary (through a *time.Duration)"
+				if fa, ok := st.Addr.(*ssa.FieldAddr); ok {
+					if !isPtrToNamed(fa.X.Type(), "Item") {
+						continue
+					}
+					fld = fieldName(fa.X.Type(), fa.Field)
+					if fld != "StartAt" && fld != "EndAt" {
+						continue
+					}
+				} else if pt, ok := st.Addr.Type().Underlying().(*types.Pointer); !ok || pt.Elem().String() != "time.Duration" {
+					continue
+				}
+				n++
+				if _, isConst := stripConv(st.Val).(*ssa.Const); isConst {
+					l.Fail(rule, FnName(f), key, p.Pos(st.Pos()), FnName(f)+" (reached from ApplyLinearCorrection) stores a constant into Item "+fld+": a boundary written by the correction has to be the affine image of the boundary read (a clamp at zero moves a cue that straddles the origin off the line)")
+					return
+				}
+			}
+		}
+	}
+	l.Prove(rule, name, key, p.Pos(fn.Pos()), "no boundary store reached from ApplyLinearCorrection has a constant value")
+	if n == 0 {
+		l.Note("E14.M11: no store into a cue boundary found under ApplyLinearCorrection (boundaries written some other way)")
+	}
+}
